@@ -492,6 +492,9 @@ struct DiskState {
     segments: Vec<(String, Vec<u8>)>,
     /// a partially written `snap.bin.tmp` left by a crash inside the snapshot step (before the rename)
     tmp: Option<Vec<u8>>,
+    /// the log path does not exist (crash inside `rotate` between the rename of the live file and the creation of
+    /// the fresh one); `wal` is empty then
+    wal_missing: bool,
 }
 
 fn read_segments(dir: &std::path::Path) -> Vec<(String, Vec<u8>)> {
@@ -511,7 +514,9 @@ fn read_segments(dir: &std::path::Path) -> Vec<(String, Vec<u8>)> {
 fn materialise(ctx: &mut Ctx, ds: &DiskState) -> (PathBuf, PathBuf, Option<PathBuf>) {
     let d = ctx.fresh_dir();
     let wal = d.join("w.wal");
-    std::fs::write(&wal, &ds.wal).unwrap();
+    if !ds.wal_missing {
+        std::fs::write(&wal, &ds.wal).unwrap();
+    }
     for (name, b) in &ds.segments {
         std::fs::write(d.join(name), b).unwrap();
     }
@@ -839,6 +844,8 @@ fn run_chain(ctx: &mut Ctx, r: &mut Rng, cc: &ChainCfg, epochs: &[Vec<Op>]) {
                         Some(if sizes.is_empty() { "-".to_string() } else { sizes.join(",") })
                     } else { None };
                     let cur_len = std::fs::metadata(&wal_path).map(|m| m.len() as usize).unwrap_or(0);
+                    // rotation streams: the directory before the operation
+                    let pre_dir: Option<(Vec<u8>, Vec<(String, Vec<u8>)>)> = if cc.max_size.is_some() && !cc.no_rotate { Some((std::fs::read(&wal_path).unwrap_or_default(), read_segments(&dir))) } else { None };
                     let (imp_res, line) = if let Op::Put(_, d) = op {
                         let c = canon(d);
                         let res = store.put_durable(k.clone(), d.clone());
@@ -926,6 +933,42 @@ fn run_chain(ctx: &mut Ctx, r: &mut Rng, cc: &ChainCfg, epochs: &[Vec<Op>]) {
                             }
                         }
                     }
+                    // ---- the step boundaries of `rotate` (model: LogDir.rotateSteps): the rotation ran before this
+                    // operation's (single) record was written. End state vs the real directory; every boundary
+                    // state materialised and recovered for real (oracle: known finding rotate/acked_entries_not_replayed)
+                    if let Some((pre_live, pre_segs)) = &pre_dir {
+                        if now_len < prev_len {
+                            let seg_str = |v: &[(String, Vec<u8>)]| -> String {
+                                let mut items: Vec<(u64, String)> = v.iter().filter_map(|(n, b)| n.rsplit('.').next().and_then(|x| x.parse::<u64>().ok()).map(|i| (i, hex(b)))).collect();
+                                items.sort();
+                                if items.is_empty() { "-".to_string() } else { items.iter().map(|(i, h)| format!("{i}:{h}")).collect::<Vec<_>>().join(";") }
+                            };
+                            let ans = ctx.m.ask(&format!("rot 2 some:{} {}", hex(pre_live), seg_str(pre_segs)));
+                            let states: Vec<&str> = ans.split(" | ").collect();
+                            // end state: segments as the real rotate left them
+                            let real_after = seg_str(&read_segments(&dir));
+                            let model_after = states.last().and_then(|x| x.split_whitespace().nth(1)).unwrap_or("?").to_string();
+                            // canonical order
+                            let canon_segs = |x: &str| -> String { let mut v: Vec<&str> = x.split(';').collect(); v.sort(); v.join(";") };
+                            ctx.rep.case(&format!("{}.rotate_end_state", cc.stream), Some(&real_after));
+                            ctx.rep.compare(&format!("{}.rotate_end_state", cc.stream), || json!({"script": script, "epoch": ei, "op": oi}), &canon_segs(&real_after), &canon_segs(&model_after));
+                            for (si, stt) in states.iter().enumerate() {
+                                let mut it = stt.split_whitespace();
+                                let lv = it.next().unwrap_or("none");
+                                let sg = it.next().unwrap_or("-");
+                                let (wal_bytes, missing) = match lv.strip_prefix("some:") {
+                                    Some(h) => (if h == "-" { Vec::new() } else { nverif::unhex(h) }, false),
+                                    None => (Vec::new(), true),
+                                };
+                                let segments: Vec<(String, Vec<u8>)> = if sg == "-" { Vec::new() } else { sg.split(';').filter_map(|p| p.split_once(':').map(|(n, h)| (format!("w.wal.{n}"), if h == "-" { Vec::new() } else { nverif::unhex(h) }))).collect() };
+                                let ds = DiskState { snap: snap_bytes.clone(), snap_name: snap_name.clone(), wal: wal_bytes, segments, tmp: None, wal_missing: missing };
+                                let info = CrashInfo { stream: cc.stream, what: format!("epoch {ei} op{oi}: inside rotate, after file-system call {} of {}", si + 1, states.len()), prev_torn, rotated: true, unsynced_ckpt: false, compare_model: cc.compare_model, bloom: cc.bloom, failing_appends: false, script: &script };
+                                let fl = prefixes.len() - 1;
+                                check_recovery(ctx, &ds, &cfg, &Expect { prefixes: &prefixes, floor: fl }, &info);
+                                ctx.rep.hit(if missing { "rotate_state.log_path_missing" } else if si + 1 == states.len() { "rotate_state.fresh_file_created" } else { "rotate_state.before_live_rename" });
+                            }
+                        }
+                    }
                     // spec (an operation that returned a log error changes nothing)
                     if !is_cache(k) && applied {
                         match op {
@@ -984,7 +1027,7 @@ fn run_chain(ctx: &mut Ctx, r: &mut Rng, cc: &ChainCfg, epochs: &[Vec<Op>]) {
                     ctx.rep.hit("op.checkpoint");
                     let wal_pre_call = std::fs::read(&wal_path).unwrap_or_default();
                     let segs_before = read_segments(&dir);
-                    let old = DiskState { snap: snap_bytes.clone(), snap_name: snap_name.clone(), wal: wal_pre_call.clone(), segments: segs_before.clone(), tmp: None };
+                    let old = DiskState { snap: snap_bytes.clone(), snap_name: snap_name.clone(), wal: wal_pre_call.clone(), segments: segs_before.clone(), tmp: None, wal_missing: false };
                     // Observe (not assume) what is on disk when the snapshot step starts: a checkpoint
                     // whose snapshot cannot be written stops right after its first step (fsync of the
                     // log), leaving the log as the snapshot step would find it.
@@ -1031,14 +1074,14 @@ fn run_chain(ctx: &mut Ctx, r: &mut Rng, cc: &ChainCfg, epochs: &[Vec<Op>]) {
                     check_recovery(ctx, &old, &cfg, &Expect { prefixes: &full, floor: fl0 }, &info0);
                     ctx.rep.hit("ckpt_state.before_fsync");
                     // c0b: log fsynced, old snapshot still in place: everything issued is acknowledged
-                    let synced_old = DiskState { snap: snap_bytes.clone(), snap_name: snap_name.clone(), wal: wal_before.clone(), segments: segs_before.clone(), tmp: None };
+                    let synced_old = DiskState { snap: snap_bytes.clone(), snap_name: snap_name.clone(), wal: wal_before.clone(), segments: segs_before.clone(), tmp: None, wal_missing: false };
                     let info0b = CrashInfo { stream: cc.stream, what: format!("epoch {ei} checkpoint@op{oi}: log fsynced, before snapshot"), prev_torn, rotated: rotated_any, unsynced_ckpt: !issued_records_on_disk, compare_model: cc.compare_model, bloom: cc.bloom, failing_appends: cc.no_rotate, script: &script };
                     check_recovery(ctx, &synced_old, &cfg, &Expect { prefixes: &full, floor: all_now }, &info0b);
                     ctx.rep.hit("ckpt_state.before_snapshot");
                     // c0c: crash INSIDE the snapshot step: the temp file is partly written, not yet renamed over
                     // the snapshot path (recovery must not look at it; with no earlier snapshot it is given a
                     // snapshot path that does not exist)
-                    let partial_tmp = DiskState { snap: snap_bytes.clone(), snap_name: snap_name.clone(), wal: wal_before.clone(), segments: segs_before.clone(), tmp: Some(new_snap[..new_snap.len() / 2].to_vec()) };
+                    let partial_tmp = DiskState { snap: snap_bytes.clone(), snap_name: snap_name.clone(), wal: wal_before.clone(), segments: segs_before.clone(), tmp: Some(new_snap[..new_snap.len() / 2].to_vec()), wal_missing: false };
                     let info0c = CrashInfo { stream: cc.stream, what: format!("epoch {ei} checkpoint@op{oi}: log fsynced, snapshot temp file half written"), prev_torn, rotated: rotated_any, unsynced_ckpt: !issued_records_on_disk, compare_model: cc.compare_model, bloom: cc.bloom, failing_appends: cc.no_rotate, script: &script };
                     check_recovery(ctx, &partial_tmp, &cfg, &Expect { prefixes: &full, floor: all_now }, &info0c);
                     ctx.rep.hit("ckpt_state.partial_snapshot_tmp");
@@ -1050,7 +1093,7 @@ fn run_chain(ctx: &mut Ctx, r: &mut Rng, cc: &ChainCfg, epochs: &[Vec<Op>]) {
                     for mc in mcuts {
                         let mut w = wal_before.clone();
                         w.extend_from_slice(&marker[..mc.min(marker.len())]);
-                        let ds = DiskState { snap: Some(new_snap.clone()), snap_name: new_name.clone(), wal: w, segments: segs_before.clone(), tmp: None };
+                        let ds = DiskState { snap: Some(new_snap.clone()), snap_name: new_name.clone(), wal: w, segments: segs_before.clone(), tmp: None, wal_missing: false };
                         let info = CrashInfo {
                             stream: cc.stream,
                             what: format!("epoch {ei} checkpoint@op{oi}: snapshot in place, {mc}/{} marker bytes", marker.len()),
@@ -1067,7 +1110,7 @@ fn run_chain(ctx: &mut Ctx, r: &mut Rng, cc: &ChainCfg, epochs: &[Vec<Op>]) {
                         states.push((ds, mc > 0 && mc < marker.len()));
                     }
                     // c4: truncated
-                    let ds4 = DiskState { snap: Some(new_snap.clone()), snap_name: new_name.clone(), wal: Vec::new(), segments: read_segments(&dir), tmp: None };
+                    let ds4 = DiskState { snap: Some(new_snap.clone()), snap_name: new_name.clone(), wal: Vec::new(), segments: read_segments(&dir), tmp: None, wal_missing: false };
                     let info4 = CrashInfo { stream: cc.stream, what: format!("epoch {ei} checkpoint@op{oi}: log truncated"), prev_torn, rotated: false, unsynced_ckpt: false, compare_model: cc.compare_model, bloom: cc.bloom, failing_appends: cc.no_rotate, script: &script };
                     check_recovery(ctx, &ds4, &cfg, &Expect { prefixes: &full, floor: all_now }, &info4);
                     ctx.rep.hit("ckpt_state.after_truncate");
@@ -1163,7 +1206,7 @@ fn run_chain(ctx: &mut Ctx, r: &mut Rng, cc: &ChainCfg, epochs: &[Vec<Op>]) {
                 } else {
                     floor_ops
                 };
-                let ds = DiskState { snap: snap_bytes.clone(), snap_name: snap_name.clone(), wal: file[..n].to_vec(), segments: read_segments(&dir), tmp: None };
+                let ds = DiskState { snap: snap_bytes.clone(), snap_name: snap_name.clone(), wal: file[..n].to_vec(), segments: read_segments(&dir), tmp: None, wal_missing: false };
                 let is_torn = {
                     let (_, end) = ctx.bind_file(&ds.wal);
                     end == "torn"
@@ -1184,7 +1227,7 @@ fn run_chain(ctx: &mut Ctx, r: &mut Rng, cc: &ChainCfg, epochs: &[Vec<Op>]) {
             };
             match pick.1 {
                 None => return, // property already violated on this state; reported
-                Some(k) => (DiskState { snap: snap_bytes.clone(), snap_name: snap_name.clone(), wal: file[..pick.0].to_vec(), segments: read_segments(&dir), tmp: None }, k, pick.2),
+                Some(k) => (DiskState { snap: snap_bytes.clone(), snap_name: snap_name.clone(), wal: file[..pick.0].to_vec(), segments: read_segments(&dir), tmp: None, wal_missing: false }, k, pick.2),
             }
         };
         if ei + 1 == epochs.len() {
@@ -1562,7 +1605,7 @@ fn main() {
         "crash_number.1", "crash_number.2", "ckpt_state.before_fsync", "ckpt.unsynced_tail_flushed_by_checkpoint", "ckpt_state.before_snapshot", "ckpt_state.after_snapshot", "ckpt_state.inside_marker",
         "ckpt_state.after_marker", "ckpt_state.after_truncate", "frames.end.clean", "frames.end.torn", "frames.end.bad_crc", "frames.end.undecodable",
         "op.sync", "op.checkpoint", "oracle.recovered_state_is_acked_prefix",
-        "config.bloom", "config.no_checksums", "config.no_verify", "config.batched01", "ckpt_state.partial_snapshot_tmp", "emb.nonvector", "crash_number.3", "config.no_auto_rotate", "op.refused_by_size_limit", "oracle.exists_scan_get_agree",
+        "config.bloom", "config.no_checksums", "config.no_verify", "config.batched01", "ckpt_state.partial_snapshot_tmp", "emb.nonvector", "crash_number.3", "config.no_auto_rotate", "op.refused_by_size_limit", "oracle.exists_scan_get_agree", "rotate_state.log_path_missing", "rotate_state.fresh_file_created", "rotate_state.before_live_rename",
     ]
     .iter()
     .map(|s| s.to_string())
@@ -1712,6 +1755,11 @@ fn main() {
             let cc = ChainCfg { stream: "probe_bloom", mode: SyncMode::Immediate, random_cuts: 3, resume_full, bloom: true, ..BASE };
             run_chain(&mut ctx, &mut r, &cc, &eps);
         }
+        // several rotations in a row (max_rotated_files = 2: the third one deletes the oldest segment, every one
+        // shifts .1 -> .2): the directory after every file-system call of each `rotate` is recovered for real
+        let cc = ChainCfg { stream: "probe_rotation_steps", mode: SyncMode::Immediate, max_size: Some(220), random_cuts: 1, ..BASE };
+        let eps = vec![(0..46).map(|i| Op::Put(format!("r{i}"), td("v"))).collect::<Vec<_>>()];
+        run_chain(&mut ctx, &mut r, &cc, &eps);
         // checksums disabled (every record carries checksum 0 = unchecked) / not verified on replay
         let eps = vec![
             vec![Op::Put("k".into(), td("v1")), Op::Put("emb:a".into(), tdv("e", 1.0, 3)), Op::Del("k".into())],
